@@ -33,8 +33,9 @@ COMPONENTS = {"real": ["util.set_owner_process/chown", "Worker.init_process", "A
                        "WorkerTmp (chown of the heartbeat file)", "sock.UnixSocket.bind (chown of the socket file)", "Config uid/gid resolution"],
               "stub": ["kernel credentials / file ownership", "worker run loop after load_wsgi (2/3 of the cases; in 1/3 the real sync / gthread / gevent / eventlet worker serves clients and the identity is sampled at every application call)"]}
 
-USERS = [None, 33, "www-data", "daemon", 1, 65534, "nobody", 1000, 54321]   # 54321: no passwd entry
-GROUPS = [None, 33, "www-data", "daemon", 1, 65534, "nogroup", 2000, 54321]
+USERS = [None, 33, "www-data", "daemon", 1, 65534, "nobody", 1000, 54321, 3000000001]   # 54321 / 3000000001: no passwd entry
+GROUPS = [None, 33, "www-data", "daemon", 1, 65534, "nogroup", 2000, 54321,
+          3000000033, 2147483648]        # ids above 2**31 (user namespaces, directory services): ids are unsigned 32-bit numbers
 NAME2UID = {"www-data": 33, "daemon": 1, "nobody": 65534}
 NAME2GID = {"www-data": 33, "daemon": 1, "nogroup": 65534}
 
